@@ -75,41 +75,6 @@ theorem C19_counterexample : ¬ C19_statement := by
 
 /-! ## What does hold -/
 
-/-- `finish` never takes its panic branch when `last` comes out of `verifyImplode` -/
-theorem finish_ok (cfg : Cfg) (W : List Val) (hW : SmallLen W.length) (tp : List Bool) (htp : tp.length = W.length)
-    (err : Option Nat) :
-    ∃ m, finish cfg W (wrap64 (lastOf ((W.length : Int) + 1) 1 tp (-1) - 1)) err
-      = .ok ⟨{ cfg with err := err }, W.take m⟩ := by
-  have hsm := small_int hW
-  obtain ⟨h1, h2⟩ := lastOf_bounds W.length hW tp 1 (-1) (by omega) (by omega) (by omega) (by omega)
-  unfold finish
-  split
-  · have e1 : wrap64 (lastOf ((W.length : Int) + 1) 1 tp (-1) - 1) = lastOf ((W.length : Int) + 1) 1 tp (-1) - 1 := by
-      rw [wrap64_eq] <;> omega
-    rw [e1, wrap64_eq (by omega) (by omega)]
-    have : ¬ (lastOf ((W.length : Int) + 1) 1 tp (-1) - 1 + 1 > (W.length : Int) + 1) := by omega
-    simp only [this, ↓reduceIte]
-    exact ⟨_, rfl⟩
-  · exact ⟨W.length, by simp⟩
-
-/-- with a gap below the scan limit: the result is a prefix of what the relocation loop leaves -/
-theorem defrag_gap_take (s : Stk) (hs : SmallLen s.xs.length) (max : Int) (pre r : List Val)
-    (hx : s.xs = pre ++ Val.nil :: r) (hp : pre.all nonNil = true) (hm : ¬ max ≤ (pre.length : Int)) :
-    ∃ m, s.defrag max = .ok ⟨{ s.cfg with err := if s.endBit then some defragErr else none },
-      (walk max pre 1 r (true :: List.replicate s.xs.length false)).1.take m⟩ := by
-  obtain ⟨T', hT1, hT2, hd⟩ := defrag_gap s hs max pre r hx hp
-  rw [hd]
-  simp only [hm, ↓reduceIte]
-  have hwl : (walk max pre 1 r (true :: List.replicate s.xs.length false)).1.length = s.xs.length := by
-    rw [walk_length, hx]; simp; omega
-  have hW : SmallLen (walk max pre 1 r (true :: List.replicate s.xs.length false)).1.length := by rw [hwl]; exact hs
-  obtain ⟨m, hm⟩ := finish_ok s.cfg _ hW (T'.drop 1 ++ [false]) (by
-    rw [hwl]; simp only [List.length_append, List.length_drop, List.length_cons, List.length_nil, hT2]
-    have : 1 ≤ s.xs.length := by rw [hx]; simp; omega
-    omega) (if s.endBit then some defragErr else none)
-  rw [hwl] at hm
-  exact ⟨m, hm⟩
-
 /-- **`stack.defrag` always returns**: no index panic, no access to the configuration slot, and
 the `for { … }` loop of `implode` terminates (the fuel `implodeFuel` is never exhausted).
 The result keeps the configuration except for `Err`. -/
@@ -171,32 +136,6 @@ theorem C19_partial_perm (s s' : Stk) (hs : SmallLen s.xs.length) (max : Int) (h
       simp only
       rw [hxf, ← walk_filter max r pre 1 (true :: List.replicate s.xs.length false)]
       exact (List.take_sublist _ _).filter _
-
-/-- `finish` with an in-range truncation point -/
-theorem finish_eq (cfg : Cfg) (W : List Val) (hW : SmallLen W.length) (l : Int) (err : Option Nat)
-    (h1 : -4611686018427387904 ≤ l) (h2 : l ≤ W.length) :
-    finish cfg W l err = .ok ⟨{ cfg with err := err }, if err = none ∧ 0 ≤ l then W.take l.toNat else W⟩ := by
-  have hsm := small_int hW
-  unfold finish Gen.defrag_trunc
-  cases err with
-  | some e => simp
-  | none =>
-    simp only [Option.isSome_none, Bool.not_false, Bool.true_and, decide_eq_true_eq, true_and]
-    by_cases hl : l ≥ 0
-    · have : ¬ (wrap64 (l + 1) > (W.length : Int) + 1) := by rw [wrap64_eq (by omega) (by omega)]; omega
-      have e : (wrap64 (l + 1) - 1).toNat = l.toNat := by rw [wrap64_eq (by omega) (by omega)]; omega
-      simp only [hl, this, ↓reduceIte, e]
-    · simp only [hl, ↓reduceIte]
-
-theorem all_nonNil_of_any (xs : List Val) (h : xs.any Val.isNil = false) : xs.all nonNil = true := by
-  induction xs with
-  | nil => rfl
-  | cons v r ih =>
-    simp only [List.any_cons, Bool.or_eq_false_iff] at h
-    simp [nonNil, h.1, ih h.2]
-
-theorem all_nonNil_filter (xs : List Val) : (xs.filter nonNil).all nonNil = true := by
-  simp
 
 /-- **The exact success class.** For a stack that carries no error beforehand, `DefragOK`
 (`Spec/DefragSpec.lean`: closed form over the nil pattern, the scan limit and the forward-index
@@ -327,6 +266,103 @@ theorem C19_partial_exact (s : Stk) (hs : SmallLen s.xs.length) (max : Int) (he 
             rw [List.filter_append, filter_nilfree _ hp]
           rw [this] at h1
           omega
+
+/-- **The shape of the result when the loop reaches every value.** Let the stack have a nil, the
+first one below the scan limit, `k` the position of the last non-nil element, and fewer than `max`
+nils before position `k` (this is *not* implied by "runs shorter than `max`": the loop compares
+the total number of nils passed so far with `max`, see the example `a _ b _ c` with limit 2 below). Then
+the result is a prefix of "all values in order, then all nils": nothing is reordered or invented,
+only a suffix may be lost or trailing nils kept. The cut is at `2·k − 3 − L` when that is ≥ 0, a
+value lies behind the first gap and no error is raised (forward-index option with a non-nil last
+element raises the error); otherwise nothing is cut. -/
+theorem C19_partial_shape (s : Stk) (hs : SmallLen s.xs.length) (max : Int) (k : Nat)
+    (hany : s.xs.any Val.isNil = true) (hfirst : (firstNil s.xs : Int) < max)
+    (hk : lastNonNil s.xs = some k)
+    (hreach : ((nilCount s.xs - (s.xs.length - 1 - k) : Nat) : Int) < max) :
+    s.defrag max = .ok ⟨{ s.cfg with err := if s.endBit then some defragErr else none },
+      (compact1 s.xs ++ List.replicate (nilCount s.xs) Val.nil).take
+        (if s.endBit = false ∧ firstNil s.xs < k ∧ (0:Int) ≤ 2 * (k : Int) - 3 - (s.xs.length : Int)
+         then (2 * (k : Int) - 3 - (s.xs.length : Int)).toNat else s.xs.length)⟩ := by
+  obtain ⟨pre, r, hx, hp, hfn⟩ := split_firstNil s.xs hany
+  have hL : s.xs.length = pre.length + 1 + r.length := by rw [hx]; simp; omega
+  have hsm := small_int hs
+  have hcg : compact1 s.xs = pre ++ r.filter nonNil := by rw [hx]; exact compact1_gap pre r hp
+  have hN : nilCount s.xs = 1 + nilCount r := by
+    rw [hx, nilCount_append, nilCount_nilfree pre hp, nilCount_cons]; simp [Val.isNil]
+  have hFl : (pre ++ r.filter nonNil).length + nilCount r = pre.length + r.length := by
+    have := filter_len_add_nilCount r; simp only [List.length_append]; omega
+  have hm : ¬ max ≤ (pre.length : Int) := by omega
+  have hWl : (pre ++ List.filter nonNil r ++ List.replicate (1 + nilCount r) Val.nil).length = s.xs.length := by
+    simp only [List.length_append, List.length_replicate] at *; omega
+  rw [hcg, hN, hfn]
+  cases hl : lastNonNil r with
+  | none =>
+    have hall := (lastNonNil_none_iff r).mp hl
+    have hc : walkCompact max 1 r = true := (walkCompact_iff max r 1).mpr (Or.inl hall)
+    have h1 : lastNonNil (Val.nil :: r) = none := by simp [lastNonNil, hl, Val.isNil]
+    rw [hx, lastNonNil_append_none _ _ h1, lastNonNil_nilfree pre hp] at hk
+    have hk' : pre.length ≠ 0 ∧ k = pre.length - 1 := by
+      by_cases h0 : pre.length = 0
+      · simp [h0] at hk
+      · simp only [h0, ↓reduceIte, Option.some.injEq] at hk; exact ⟨h0, hk.symm⟩
+    rw [defrag_gap_compact s hs max pre r hx hp hm hc]
+    simp only [hl]
+    rw [finish_eq _ _ (by rw [hWl]; exact hs) _ _ (by omega) (by rw [hWl]; omega)]
+    have hnk : ¬ (pre.length < k) := by omega
+    have hn2 : ¬ ((0:Int) ≤ -2) := by omega
+    simp only [hnk, hn2, and_false, false_and, ↓reduceIte]
+    rw [List.take_of_length_le (by rw [hWl]; omega)]
+  | some j =>
+    have hj := lastNonNil_spec r j hl
+    have h1 : lastNonNil (Val.nil :: r) = some (j + 1) := by simp [lastNonNil, hl]
+    rw [hx, lastNonNil_append_some _ _ _ h1] at hk
+    simp only [Option.some.injEq] at hk
+    subst hk
+    have hc : walkCompact max 1 r = true := by
+      apply (walkCompact_iff max r 1).mpr
+      right
+      have : nilCount s.xs - (s.xs.length - 1 - (pre.length + (j + 1))) = 1 + nilsBeforeLast r := by omega
+      rw [this] at hreach; exact hreach
+    rw [defrag_gap_compact s hs max pre r hx hp hm hc]
+    simp only [hl]
+    rw [finish_eq _ _ (by rw [hWl]; exact hs) _ _ (by omega) (by rw [hWl]; omega)]
+    have hlt : pre.length < pre.length + (j + 1) := by omega
+    have ek : 2 * ((pre.length + 1 + j : Nat) : Int) - 3 - (s.xs.length : Int)
+        = 2 * ((pre.length + (j + 1) : Nat) : Int) - 3 - (s.xs.length : Int) := by omega
+    rw [ek]
+    simp only [hlt, true_and]
+    cases hb : s.endBit
+    · by_cases hge : (0:Int) ≤ 2 * ((pre.length + (j + 1) : Nat) : Int) - 3 - (s.xs.length : Int)
+      · simp only [hge, and_self, ↓reduceIte, Bool.false_eq_true]
+      · simp only [hge, and_false, ↓reduceIte, Bool.false_eq_true]
+        rw [List.take_of_length_le (by rw [hWl]; omega)]
+    · simp only [Bool.true_eq_false, false_and, ↓reduceIte, reduceCtorEq]
+      rw [List.take_of_length_le (by rw [hWl]; omega)]
+
+/-! ## Non-vacuity and the other documented failures, on concrete stacks -/
+
+/-- the hypotheses of `C19_partial_exact`/`C19_partial_shape` are satisfiable in a non-trivial way:
+`a _ _ _ _ _ b` (5 nils, none trailing: N = 2·0+5) is compacted correctly -/
+example : DefragOK false 50 [.leaf (.int 1), .nil, .nil, .nil, .nil, .nil, .leaf (.int 2)] = true := by decide
+
+/-- … and the witness of the counterexample is outside the class -/
+example : DefragOK false 50 witness.xs = false := by decide
+
+/-- `a _ b` keeps a nil (no truncation: `2·2 − 3 − 3 < 0`) -/
+example : (⟨{ kind := 4 }, [.leaf (.int 1), .nil, .leaf (.int 2)]⟩ : Stk).defrag 50
+    = .ok ⟨{ kind := 4 }, [.leaf (.int 1), .leaf (.int 2), .nil]⟩ := by rfl
+
+/-- the scan limit counts all nils passed, not a run: `a _ b _ c` with limit 2 leaves `c` behind two nils -/
+example : (⟨{ kind := 4 }, [.leaf (.int 1), .nil, .leaf (.int 2), .nil, .leaf (.int 3)]⟩ : Stk).defrag 2
+    = .ok ⟨{ kind := 4 }, [.leaf (.int 1), .leaf (.int 2), .nil, .nil, .leaf (.int 3)]⟩ := by rfl
+
+/-- forward indices, last element non-nil: `Err` is raised and nothing is cut (K-C19-3) -/
+example : (⟨{ kind := 4, opt := 32 }, [.leaf (.int 1), .nil, .leaf (.int 2)]⟩ : Stk).defrag 50
+    = .ok ⟨{ kind := 4, opt := 32, err := some defragErr }, [.leaf (.int 1), .leaf (.int 2), .nil]⟩ := by rfl
+
+/-- first gap at the scan limit: nothing happens (K-C19-2) -/
+example : (⟨{ kind := 4 }, [.leaf (.int 1), .nil, .leaf (.int 2)]⟩ : Stk).defrag 1
+    = .ok ⟨{ kind := 4 }, [.leaf (.int 1), .nil, .leaf (.int 2)]⟩ := by rfl
 
 end Stk
 end Stackage
